@@ -86,6 +86,9 @@ def build_cases(prop, tier, rng):
     elif prop == "C16":
         add(500 if q else 8000, G.Gen(rng, peeks=True, offsets=True, rejects=True), [5, 10, 20, 40], backends=("fd",))
         add(150 if q else 2000, G.Gen(rng, restarts=True, big=False), [10, 30], backends=("fd",))
+    elif prop == "C04":
+        add(400 if q else 8000, G.Gen(rng, peeks=True, rejects=True, long_names=True), [5, 10, 20, 40])
+        add(200 if q else 4000, G.Gen(rng, restarts=True, rejects=True, long_names=True), [10, 20, 40], modes=["strict"])
     elif prop == "C02":
         add(600 if q else 10000, G.Gen(rng, peeks=True, offsets=True), [5, 10, 20, 40])
     elif prop == "C06":
@@ -99,6 +102,7 @@ COLUMNS = {
     "C03": ["c03"],
     "C15": ["c15"],
     "C16": [],
+    "C04": ["c01", "c15"],
     "C02": ["c02b", "c02c"],
     "C06": [],          # decided per mode below
 }
